@@ -18,3 +18,8 @@
     requires self.colptr@.len() == self.n + 1,
     ensures r == self.colptr@[self.n as int],
 //@end
+
+//@fn file=src/algebra/csc/core.rs in="ShapedMatrix for CscMatrix<T>" name=nrows rules=R1 ret=r
+//@contract
+    ensures r == self.m
+//@end
